@@ -1,5 +1,7 @@
 import Cfdm.Driver.Parse
 import Cfdm.Model.Geometry
+import Cfdm.Model.GeometryWrite
+import Cfdm.Model.GeometryOps
 namespace Cfdm.Driver.C14
 open Cfdm.Driver Cfdm.Geometry
 
@@ -24,6 +26,20 @@ def parseOld (kv : KV) : Option Bool :=
   | some "0" => some false
   | _ => none
 
+/-- What `cfdm.read` presents for one container whose node values are their file offsets. -/
+def readOut (ncells nnodes : Nat) (nc pnc : Option (List Nat)) (ring : Option (List Int)) (old : Bool) : String :=
+    if (defaultNodeCount nc nnodes).length != ncells then "bad-op" else
+    let nodes := List.range nnodes
+    let b := readBounds (!old) nc pnc nodes
+    let cshape := coordShape none (some (shape3 b)) true
+    let ringS := match pnc, ring with
+      | some pnc, some flags => showOpt toString (readRing (!old) nc nnodes pnc flags).flatten
+      | _, _ => "-"
+    match cshape with
+    | none => "bad-op"
+    | some cs =>
+      s!"cshape={showNatList cs} shape={showNatList (shape3 b)} b={showOpt toString b.flatten.flatten} ring={ringS}"
+
 /-- `read`: what `cfdm.read` presents for a hand-encoded container whose node
 values are their file offsets. -/
 def runRead (kv : KV) : String :=
@@ -36,18 +52,30 @@ def runRead (kv : KV) : String :=
     let old ← parseOld kv
     some (ncells, nnodes, nc, pnc, ring, old)) with
   | none => "bad-op"
-  | some (ncells, nnodes, nc, pnc, ring, old) =>
-    if (defaultNodeCount nc nnodes).length != ncells then "bad-op" else
-    let nodes := List.range nnodes
-    let b := readBounds (!old) nc pnc nodes
-    let cshape := coordShape none (some (shape3 b)) true
-    let ringS := match pnc, ring with
-      | some pnc, some flags => showOpt toString (readRing (!old) nc nnodes pnc flags).flatten
-      | _, _ => "-"
-    match cshape with
-    | none => "bad-op"
-    | some cs =>
-      s!"cshape={showNatList cs} shape={showNatList (shape3 b)} b={showOpt toString b.flatten.flatten} ring={ringS}"
+  | some (ncells, nnodes, nc, pnc, ring, old) => readOut ncells nnodes nc pnc ring old
+
+/-- `mread`: several containers in one file, several data variables; every data
+variable is presented the cells of the container it names (containers are
+decoded independently of each other). `c<j>=ncells/nnodes/nc/pnc/ring`. -/
+def runMread (kv : KV) : String :=
+  match (do
+    let n ← (← kv.get? "n").toNat?
+    let cs ← (List.range n).mapM (fun j => do
+      match (← kv.get? s!"c{j}").splitOn "/" with
+      | [ncells, nnodes, nc, pnc, ring] =>
+        some ((← ncells.toNat?), (← nnodes.toNat?), (← parseOptNatList nc), (← parseOptNatList pnc),
+              (← parseOptIntList' ring))
+      | _ => none)
+    let vars ← parseNatList (← kv.get? "vars")
+    some (cs, vars)) with
+  | none => "bad-op"
+  | some (cs, vars) =>
+    if vars.isEmpty || vars.any (· ≥ cs.length) then "bad-op" else
+    let outs := vars.map (fun j =>
+      match cs[j]? with
+      | some (ncells, nnodes, nc, pnc, ring) => readOut ncells nnodes nc pnc ring false
+      | none => "bad-op")
+    if outs.contains "bad-op" then "bad-op" else String.intercalate " | " outs
 
 /-- Cells of node offsets from the per-cell part sizes. -/
 def idCells : Nat → List (List Nat) → Cells Nat
@@ -82,10 +110,171 @@ def runWrite (kv : KV) : String :=
     let ringOut := match ring with | none => "-" | some r => showIntList (wRing (padRows r))
     s!"nc={showNatList (wNodeCount b)} pnc={pncS} ring={ringOut} nodes={showNatList (wNodes b)}"
 
+
+/-! ### `multi`: several geometry fields in one `cfdm.write` -/
+section multi
+open Cfdm.GeometryWrite
+
+/-- Cells of node values `offset + shift` from the per-cell part sizes. -/
+def valueCells (shift : Int) (cells : List (List Nat)) : Cells Int :=
+  (idCells 0 cells).map (fun c => c.map (fun p => p.map (fun (n : Nat) => Int.ofNat n + shift)))
+
+/-- `dim/type/cells/ring/coords/rep/nodesets/repset/props/gm` -/
+def parseField (s : String) : Option FieldIn :=
+  match s.splitOn "/" with
+  | [dim, ty, cells, ring, coords, rep, nodesets, repset, props, gm] => do
+    let dim ← dim.toNat?
+    let ty ← ty.toNat?
+    let cells ← parseNested String.toNat? cells
+    let ring ← if ring == "-" then some none else (parseNested parseInt? ring).map some
+    let coords ← parseNatList coords
+    let rep ← parseNatList rep
+    let nodesets ← parseNatList nodesets
+    let repset ← repset.toNat?
+    let props ← props.toNat?
+    let gm ← gm.toNat?
+    if ty > 2 || cells.isEmpty || coords.isEmpty || cells.any (fun c => c.isEmpty || c.any (· == 0)) then none else
+    if coords.length != nodesets.length || coords.any (· > 2) then none else
+    if (match ring with | none => false | some r => r.map List.length != cells.map List.length) then none else
+    let ncells := cells.length
+    let cs := (coords.zip nodesets).map (fun (k, ns) =>
+      ({ k := k, cells := valueCells ((1000 * k + 100000 * ns : Nat) : Int) cells, ring := ring,
+         rep := if rep.contains k then some ((List.range ncells).map (fun i => ((10 * i + 5 + 100 * repset : Nat) : Int))) else none,
+         props := props } : CoordIn))
+    some ⟨dim, ty, cs, gm⟩
+  | _ => none
+
+structure Num where
+  d : List Nat := []
+  v : List Nat := []
+
+def numOf (tab : List Nat) (key : Nat) : List Nat × Nat :=
+  match tab.findIdx? (· == key) with
+  | some i => (tab, i)
+  | none => (tab ++ [key], tab.length)
+
+def Num.dim (n : Num) (key : Nat) : Num × String :=
+  let (t, i) := numOf n.d key
+  ({ n with d := t }, s!"D{i}")
+
+def Num.var (n : Num) (key : Nat) : Num × String :=
+  let (t, i) := numOf n.v key
+  ({ n with v := t }, s!"V{i}")
+
+def varDim (st : GeometryWrite.St) (v : Nat) : Nat := ((st.vars.getD v ⟨Content.count [], []⟩).dims).headD 0
+
+def typeName (t : Nat) : String := match t with | 0 => "point" | 1 => "line" | _ => "polygon"
+
+def showRole (st : GeometryWrite.St) (n : Num) (name : String) (v : Option Nat) : Num × String :=
+  match v with
+  | none => (n, s!"{name}=-")
+  | some v =>
+    let (n, vs) := n.var v
+    let (n, ds) := n.dim (varDim st v)
+    let vals := match (st.vars.getD v ⟨Content.count [], []⟩).content with
+      | Content.count l => showNatList l
+      | Content.ring l => showIntList l
+      | _ => "?"
+    (n, s!"{name}={vs}@{ds}{vals}")
+
+def showField (st : GeometryWrite.St) (n : Num) (f : FieldIn) (o : FieldOut) : Num × String :=
+  let size := (f.coords.head?.map (fun c => c.cells.length)).getD 0
+  let (n, cd) := n.dim o.cell
+  let (n, cs) := (f.coords.zip o.per).foldl (fun (acc : Num × List String) (c, p) =>
+      let (n, l) := acc
+      let (n, vs) := n.var p.2.1
+      let (n, ds) := n.dim (varDim st p.2.1)
+      let total := (nodesOf c.cells).length
+      let ns := (((nodesOf c.cells).headD 0).toNat) / 100000
+      (n, l ++ [s!"{"xyz".toList.getD c.k 'x'}={vs}@{ds}" ++ "{" ++ s!"s{ns}n{total}" ++ "}"])) (n, [])
+  let (n, nc) := showRole st n "nc" (some o.container.nodeCount)
+  let (n, pnc) := showRole st n "pnc" o.container.partNodeCount
+  let (n, ring) := showRole st n "ring" o.container.ring
+  let (n, reps) := o.per.foldl (fun (acc : Num × List String) p =>
+      let (n, l) := acc
+      match p.2.2 with
+      | none => (n, l)
+      | some cv =>
+        let (n, vs) := n.var cv
+        (n, l ++ [s!"{"xyz".toList.getD p.1 'x'}:{vs}"])) (n, [])
+  let rep := if reps.isEmpty then "-" else String.intercalate "," reps
+  (n, String.intercalate " " ([s!"cell={cd}:{size}", s!"type={typeName f.gtype}"] ++ cs ++
+      [nc, pnc, ring, s!"rep={rep}", s!"gm={f.gm}", s!"gc=G{o.gc}"]))
+
+def runMulti (kv : KV) : String :=
+  match (do
+    let nf ← (← kv.get? "nf").toNat?
+    let fs ← (List.range nf).mapM (fun i => do parseField (← kv.get? s!"f{i}"))
+    let old ← parseOld kv
+    some (fs, old)) with
+  | none => "bad-op"
+  | some (fs, old) =>
+    if fs.isEmpty then "bad-op" else
+    match writeAll (!old) GeometryWrite.St.empty fs with
+    | none => "raised:ValueError"
+    | some (st, outs) =>
+      let (_, lines) := (fs.zip outs).foldl (fun (acc : Num × List String) (f, o) =>
+        let (n, l) := acc
+        let (n, s) := showField st n f o
+        (n, l ++ [s])) (({} : Num), [])
+      String.intercalate " | " lines
+
+end multi
+
+/-! ### `ops`: subspace / insert_dimension / squeeze / transpose, then write -/
+section ops
+open Cfdm.GeometryOps
+
+def parseCOp (s : String) : Option COp :=
+  match s with
+  | "ins0" => some (COp.ins 0)
+  | "ins1" => some (COp.ins 1)
+  | "T" => some COp.tr
+  | "sq" => some COp.sq
+  | _ => none
+
+def runOps (kv : KV) : String :=
+  match (do
+    let cells ← parseNested String.toNat? (← kv.get? "cells")
+    let ringS ← kv.get? "ring"
+    let ring ← if ringS == "-" then some none else (parseNested parseInt? ringS).map some
+    let sel ← parseNatList (← kv.get? "sel")
+    let cop ← parseListWith parseCOp ',' (← kv.get? "cop")
+    some (cells, ring, sel, cop)) with
+  | none => "bad-op"
+  | some (cells, ring, sel, cop) =>
+    if cells.isEmpty || cells.any (fun c => c.isEmpty || c.any (· == 0)) then "bad-op" else
+    if sel.isEmpty || sel.any (· ≥ cells.length) then "bad-op" else
+    if (match ring with | none => false | some r => r.map List.length != cells.map List.length) then "bad-op" else
+    let cs := idCells 0 cells
+    let mp := maxLen cs
+    let mn := maxLen cs.flatten
+    let (b, r) := subspace sel (padW mp mn cs) (ring.map (padRowsW mp))
+    let cshape := coordShape none (some (shape3 b)) true
+    let ringS := match r with
+      | some r => showOpt toString r.flatten
+      | none => "-"
+    let sh := applyOps cop (initShapes sel.length mp mn ring.isSome)
+    let rS := match sh.r with | some l => showNatList l | none => "-"
+    let pnc := wPartNodeCount b ring.isSome
+    let pncS := match pnc with | none => "-" | some l => showNatList l
+    let ringOut := match r with | none => "-" | some r => showIntList (wRing r)
+    match cshape with
+    | none => "bad-op"
+    | some cshape =>
+      s!"cshape={showNatList cshape} shape={showNatList (shape3 b)} b={showOpt toString b.flatten.flatten} ring={ringS}"
+      ++ s!" | c={showNatList sh.c} b={showNatList sh.b} r={rS}"
+      ++ s!" | nc={showNatList (wNodeCount b)} pnc={pncS} ring={ringOut} nodes={showNatList (wNodes b)}"
+
+end ops
+
 def run (sub : String) (kv : KV) : String :=
   match sub with
   | "read" => runRead kv
   | "write" => runWrite kv
+  | "multi" => runMulti kv
+  | "mread" => runMread kv
+  | "ops" => runOps kv
   | _ => "bad-op"
 
 end Cfdm.Driver.C14
